@@ -82,6 +82,7 @@ func FuzzC19(f *testing.F) {
 		`{"raw_suite":"OCRA-1:HOTP-SHA1-6:QN08-S-T1"}`,
 		`{"type":"totp","secret":"JBSWY3DPEHPK3PXP","issuer":"My Company","account_name":"a b","period":30}`,
 		`{`, `[]`, `null`, `{"secret":1}`, ``,
+		`{"seCret":"22","":1e700}`, // F26: a well-formed number beyond float64 next to a valid request
 	}
 	for i, s := range seeds {
 		f.Add(uint8(i), uint8(0), []byte(s))
